@@ -302,6 +302,13 @@ class AsyncServer(base_server.BaseServer):
                                 f'Invalid transport for session {sid}',
                                 'bad-transport')
                             r = self._bad_request('Invalid transport')
+                        elif upgrade_header == 'websocket' and \
+                                'websocket' not in self.transports:
+                            # an upgrade cannot be used to reach a
+                            # transport that is not allowed
+                            self._log_error_once('Invalid transport',
+                                                 'bad-transport')
+                            r = self._bad_request('Invalid transport')
                         else:
                             try:
                                 packets = await socket.handle_get_request(
